@@ -41,6 +41,34 @@ Theorem C18_sorting_keeps_subtree_leaves :
 Proof. exact reorder_leaf_ids. Qed.
 Print Assumptions C18_sorting_keeps_subtree_leaves.
 
+(* planarity.  LL u = the leaves below a (sorted) structure u from left to right.
+   (a) the leaves of every structure form one contiguous run of the leaves of any structure that
+       contains it - so every structure's leaves occupy a contiguous interval of positions;
+   (b) of two children, all leaves of the one later in the sorted child list lie to the left of
+       all leaves of the earlier one - blocks never interleave, hence no lines cross;
+   (c) the sorted child list is in key order (descending when reverse = false, because the
+       display order is the reversed traversal: smaller keys end up on the left);
+   (d) the whole display order is the concatenation of the trunk structures' blocks in sorted order *)
+Theorem C18_subtree_leaves_contiguous :
+  forall u w, In w (nodes u) -> exists X Z, LL u = X ++ LL w ++ Z.
+Proof. exact subtree_leaves_contiguous. Qed.
+Theorem C18_sibling_blocks_do_not_interleave :
+  forall i o l1 a l2 b l3,
+    exists X Y Z, LL (Node i o (l1 ++ a :: l2 ++ b :: l3)) = X ++ LL b ++ Y ++ LL a ++ Z.
+Proof. exact sibling_blocks_ordered. Qed.
+Theorem C18_children_in_key_order :
+  forall keytb R i o ks l1 a l2 b l3,
+    tkids (reorder keytb R (Node i o ks)) = l1 ++ a :: l2 ++ b :: l3 ->
+    if R then key keytb b <= key keytb a else key keytb a <= key keytb b.
+Proof. exact children_sorted_by_key. Qed.
+Theorem C18_display_order_is_trunk_blocks :
+  forall keytb reverse f,
+    leaf_order keytb reverse f =
+    flat_map (fun t => LL (reorder keytb (negb reverse) t)) (psorted keytb reverse f).
+Proof. exact leaf_order_blocks. Qed.
+Print Assumptions C18_sibling_blocks_do_not_interleave.
+Print Assumptions C18_children_in_key_order.
+
 (* the line collection: per structure a vertical segment from the parent's height (own minimum
    on the trunk) to its own height, and for a branch a horizontal one spanning its children at
    its height; each keyed by the structure it was drawn for *)
